@@ -251,6 +251,111 @@ def dropChunk (s : State K) (k : K) : State K :=
 def restamp (s : State K) (k : K) (t : Nat) : State K :=
   { s with chunks := modify k (fun r => { r with created := t }) s.chunks }
 
+/-! ## streaming reader (`streaming.rs` `BlobReader`) -/
+
+/-- `BlobReader` fields: the chunk-key list copied from the metadata when the reader was opened,
+    `current_chunk`, `current_data`, `current_offset`, `total_size`, `bytes_read`, `checksum` -/
+structure Reader (K : Type) where
+  chunks : List K
+  cur : Nat
+  data : Option (List Nat)
+  off : Nat
+  total : Nat
+  bytesRead : Nat
+  checksum : K
+  deriving DecidableEq, Repr
+
+/-- `BlobStore::reader` / `BlobReader::new`: only the metadata record is read -/
+def rOpen (s : State K) (id : Nat) : Except Err (Reader K) :=
+  match find id s.arts with
+  | none => .error .notFound
+  | some a => .ok ⟨a.chunks, 0, none, 0, a.size, 0, a.checksum⟩
+
+/-- `BlobReader::next_chunk`: `None` past the last key; a missing record is `ChunkMissing` and leaves the
+    position where it was -/
+def rNext (tbl : List (K × CRec)) (r : Reader K) : Except Err (Option (List Nat)) × Reader K :=
+  match r.chunks[r.cur]? with
+  | none => (.ok none, r)
+  | some k =>
+    match find k tbl with
+    | none => (.error .chunkMissing, r)
+    | some c => (.ok (some c.data), { r with cur := r.cur + 1, bytesRead := r.bytesRead + c.data.length })
+
+/-- `BlobReader::read(buf)` with `buf.len() = n`: the bytes copied into the buffer.  A new chunk is loaded
+    when none is loaded or the loaded one is used up; at most the rest of ONE chunk is returned. -/
+def rRead (tbl : List (K × CRec)) (r : Reader K) (n : Nat) : Except Err (List Nat) × Reader K :=
+  let loaded : Option (List Nat) :=
+    match r.data with
+    | none => none
+    | some d => if r.off ≥ d.length then none else some d
+  match loaded with
+  | some d => (.ok ((d.drop r.off).take n), { r with off := r.off + ((d.drop r.off).take n).length })
+  | none =>
+    match rNext tbl r with
+    | (.error e, r') => (.error e, r')
+    | (.ok none, r') => (.ok [], r')
+    | (.ok (some d), r') => (.ok (d.take n), { r' with data := some d, off := (d.take n).length })
+
+def rAllGo (tbl : List (K × CRec)) : Nat → Reader K → Except Err (List Nat) × Reader K
+  | 0, r => (.ok [], r)
+  | fuel + 1, r =>
+    match rNext tbl r with
+    | (.error e, r') => (.error e, r')
+    | (.ok none, r') => (.ok [], r')
+    | (.ok (some d), r') =>
+      match rAllGo tbl fuel r' with
+      | (.error e, r'') => (.error e, r'')
+      | (.ok rest, r'') => (.ok (d ++ rest), r'')
+
+/-- `BlobReader::read_all`: `next_chunk` until `None` (at most `len - cur + 1` calls), from the current
+    chunk position — bytes of a chunk partly consumed by `read` are not part of it -/
+def rAll (tbl : List (K × CRec)) (r : Reader K) : Except Err (List Nat) × Reader K :=
+  rAllGo tbl (r.chunks.length - r.cur + 1) r
+
+/-- `BlobReader::verify`: rewind to the first chunk, re-hash everything against `_checksum` -/
+def rVerify (tbl : List (K × CRec)) (r : Reader K) : Except Err Bool × Reader K :=
+  match rAll tbl { r with cur := 0, bytesRead := 0 } with
+  | (.error e, r') => (.error e, r')
+  | (.ok d, r') => (.ok (decide (h d = r.checksum)), r')
+
+/-! ## queries (`lib.rs` `exists`, `stats`; `integrity.rs` `verify_chunk`, `check_chunks_exist`,
+    `find_orphaned_chunks`; `gc.rs` `count_orphans`) -/
+
+/-- `BlobStore::exists` -/
+def existsArt (s : State K) (id : Nat) : Bool := (find id s.arts).isSome
+
+structure Stats where
+  artifactCount : Nat
+  chunkCount : Nat
+  totalBytes : Nat
+  uniqueBytes : Nat
+  orphaned : Nat
+  deriving DecidableEq, Repr
+
+/-- `BlobStore::stats` (the float `dedup_ratio` is `1 - unique/total`, not modelled);
+    `orphaned` is also `GarbageCollector::count_orphans`: records whose `_refs` is 0 -/
+def stats (s : State K) : Stats :=
+  { artifactCount := s.arts.length, chunkCount := s.chunks.length,
+    totalBytes := (s.arts.map (fun a => a.2.size)).sum,
+    uniqueBytes := (s.chunks.map (fun p => p.2.size)).sum,
+    orphaned := (s.chunks.filter (fun p => decide (p.2.refs = 0))).length }
+
+/-- `integrity::verify_chunk`: the record's data must hash to its own key -/
+def verifyChunk (s : State K) (k : K) : Except Err Bool :=
+  match find k s.chunks with
+  | none => .error .chunkMissing
+  | some r => .ok (decide (h r.data = k))
+
+/-- `integrity::check_chunks_exist`: the listed keys (repeats included) that are absent -/
+def checkChunksExist (s : State K) (id : Nat) : Except Err (List K) :=
+  match find id s.arts with
+  | none => .error .notFound
+  | some a => .ok (a.chunks.filter (fun k => !(find k s.chunks).isSome))
+
+/-- `integrity::find_orphaned_chunks`: chunk keys no metadata record lists (`_refs` is not consulted) -/
+def findOrphaned (s : State K) : List K :=
+  (s.chunks.filter (fun p => !(referenced s.arts).contains p.1)).map (·.1)
+
 /-! ## operation sequences (the quantifier of the sequential theorems) -/
 
 inductive Op
